@@ -56,7 +56,13 @@ fn main() {
         tier,
         seed,
         replay,
-        budget_s: budget.unwrap_or(if tier == Tier::Quick { 45.0 } else { 900.0 }),
+        // wall-clock caps inside the engines (what is cut is reported as capped / exhaustive:false);
+        // generous, so that a loaded machine does not silently drop the tail of a check
+        budget_s: budget.unwrap_or(match (tier, cmd.as_str()) {
+            (Tier::Quick, "C08") | (Tier::Quick, "C11") => 150.0,
+            (Tier::Quick, _) => 90.0,
+            _ => 900.0,
+        }),
         extra,
     };
     // deterministic environment for git
